@@ -84,7 +84,8 @@ impl SaslPlainMechanism {
     fn validate_init(&self, init: SaslInit) -> Option<SaslCode> {
         let response = init.initial_response?.into_vec();
 
-        let mut split = response.split(|b| *b == 0u8);
+        // message = [authzid] NUL authcid NUL passwd: everything after the second NUL is the password
+        let mut split = response.splitn(3, |b| *b == 0u8);
         let _authzid = split.next()?;
         let authcid = split.next()?;
         let passwd = split.next()?;
